@@ -12,6 +12,8 @@ Directives (each on its own line, leading whitespace ignored):
   //@SUB "<from>" -> "<to>"                   literal rewrite inside the body (must match; listed in evidence)
   //@RESUB "<regex>" -> "<to>"                regular-expression rewrite (must match at least once; RESUBOPT: may be absent --
                                               used for glue whose un-rewritten form cannot type-check in the unit, so absence degrades)
+  //@FORBID "<regex>"                         after all rewrites the body must NOT match (a construct that would be hosted without
+                                              the annotation it needs, e.g. a closure in a new shape): lost anchor, never an alarm
   //@SUBOPT "<from>" -> "<to>"                same, but skipped when <from> does not occur (used for `X::CONST` -> `X::CONST()`)
   //@START ... //@END                          insert the `//@  ` lines right after the opening brace of the body
   //@AT "<text>" before|after                 insert the following `//@  ` lines before/after the first body line
@@ -134,7 +136,7 @@ def splice(tmpl_path, repo_root):
             a = _args(s[8:])
             tmpl_line = i + 1
             i += 1
-            loops, subs, ats = {}, [], []
+            loops, subs, ats, forbids = {}, [], [], []
             while i < len(src):
                 t = src[i].strip()
                 if t.startswith('//@LOOP '):
@@ -153,6 +155,10 @@ def splice(tmpl_path, repo_root):
                 elif t.startswith('//@SUB ') or t.startswith('//@SUBOPT '):
                     mm = re.match(r'//@SUB(?:OPT)?\s+"(.*)"\s*->\s*"(.*)"\s*$', t)
                     subs.append((mm.group(1), mm.group(2), t.startswith('//@SUBOPT ')))
+                    i += 1
+                elif t.startswith('//@FORBID '):
+                    mm = re.match(r'//@FORBID\s+"(.*)"\s*$', t)
+                    forbids.append(re.compile(mm.group(1)))
                     i += 1
                 elif t.startswith('//@AT '):
                     mm = re.match(r'//@AT\s+"(.*)"\s+(before|after)\s*$', t)
@@ -210,6 +216,9 @@ def splice(tmpl_path, repo_root):
                     raise LostAnchor('rewrite source `%s` not found in %s' % (frm, a['fn']))
                 body = body.replace(frm, to)
                 out.rewrites.append('%s:%s `%s` -> `%s`' % (a['file'], a['fn'], frm, to))
+            for fb in forbids:
+                if fb.search(body):
+                    raise LostAnchor('construct `%s` that the unit cannot host is still present in %s after the rewrites' % (fb.pattern, a['fn']))
             blines = body.split('\n')
             # map body lines to repo lines; inserted clause lines (marked) map to the template
             repo_ln = f['line']
